@@ -18,7 +18,7 @@ PROP = dict(
              monitors=["finished_exactly_once", "finished_only_when_tree_done", "no_fetch_after_finish", "every_built_request_fetched_before_pass_end",
                        "in_flight_le_tokens", "reactor_idle_at_quiescence", "wellformed_at_stage_boundaries", "seed_in_one_place_at_a_time",
                        "attempts_le_max_retry_plus_1", "redirect_chain_and_asset_depth_bounds",
-                       "accepted_responses_in_warc_when_seed_finished", "crawl_never_wedged_with_seeds_in_flight"]),
+                       "accepted_responses_in_warc_when_seed_finished", "crawl_never_wedged_with_seeds_in_flight", "no_seed_fetched_beyond_max_hops (depth along the via chain, through the queue)"]),
     ],
     search_mult=3,
     partial="Component-level slice plus a single-process archive-to-WARC leg: the full-pipeline ordering (finish message only "
